@@ -1,11 +1,18 @@
-import NbioVerif.Lemmas.C08Bound
+import NbioVerif.Lemmas.C08Meta
 /-! C08: parser robustness and bounds (model level).
 
 * `c08_no_hang`        the Go-shaped index loop never runs out of fuel (fuel = |buf|+1), i.e. the
                        loop of `Parser.Parse` terminates on every input, state and cache
 * `c08_retained_bound` retained bytes ≤ max ReadLimit |data|
+* `c08_no_panic`       with every Go slice/index expression of the loop checked (`data[i]`, `data[start:i]`,
+                       `data[start:start+n]`, `data[start:]`), the panic outcome is unreachable: the checked loop equals
+                       the unchecked one from every (state, cache) on every input
+* `c08_retained_bound` retained bytes ≤ max ReadLimit |data|
 * `c08_body_bound`     the body held for the message under construction never exceeds MaxHTTPBodySize
-* framing metadata: `c08_cl_digits`, `c08_chunk_hex`, `c08_te_only_chunked`
+* framing metadata: `c08_content_length`, `c08_chunk_size`, `c08_transfer_encoding`, `c08_trailer_names`,
+  `c08_missing_lf`, `c08_missing_cr`, `c08_bare_lf_in_header`
+* `c08_silent_after_close` once the engine glue has closed the parser (`CloseAndClean` on error), no Parse call
+                       emits an event
 -/
 namespace Scan
 variable {σ ε : Type}
@@ -94,6 +101,68 @@ theorem c08_retained_bound (g : Cfg) (limit : Nat) (hl : 0 < limit) (st : P) (ca
     cache'.length ≤ max limit data.length :=
   retained_bound (machine g) limit hl st cache data acc hc acc' st' cache' h
 
+/-- C08: `Parse` never panics on a slice or index expression — for every machine state, cache and input (no
+    reachability hypothesis is needed: the loop maintains `start ≤ i ≤ len(data)` by itself). -/
+theorem c08_no_panic (g : Cfg) (st : P) (cache data : Bytes) (acc : List Ev) :
+    implParseC (machine g) st cache data acc = some (implParse (machine g) st cache data acc) :=
+  implParseC_eq (machine g) st cache data acc
+
+/-- C08: the body held for the message under construction never exceeds MaxHTTPBodySize (when set): the bound is an
+    invariant of every `Parse` call, from any state that satisfies it (in particular from `init g`). -/
+theorem c08_body_bound (g : Cfg) (st : P) (cache data : Bytes) (acc : List Ev) (hI : BodyInv g st) acc' st' cache'
+    (h : implParse (machine g) st cache data acc = ⟨acc', .inl (st', cache')⟩) : BodyInv g st' :=
+  implParse_inv (machine g) (BodyInv g) (fun st tok c s' u evs hi hs => byteStep_bodyInv g st tok c s' u evs hi hs)
+    (fun st d s' u evs hi hs => blockDone_bodyInv g st d s' u evs hi hs) st cache data acc hI acc' st' cache' h
+
+theorem c08_body_bound_init (g : Cfg) : BodyInv g (init g) := by intro _; simp [init]
+
+/-- C08: accepted Content-Length fields all carry the same value (trailing spaces aside), it is `[+-]?DIGIT+` and
+    non-negative; empty, non-numeric, negative, overflowing (≥ 2^62) and differing values are errors. -/
+theorem c08_content_length (p p' : P) (v : Bytes) (rest : List Bytes) (h : endOfHeaders p = .ok p')
+    (hte : p.te = []) (hcl : p.cl = v :: rest) :
+    clShape (trimRightSpaces v) = true ∧ 0 ≤ p'.contentLength ∧
+      parseCLValue (trimRightSpaces v) = some p'.contentLength ∧
+      ∀ w ∈ rest, trimRightSpaces w = trimRightSpaces v :=
+  cl_accepted p p' v rest h hte hcl
+
+/-- C08: an accepted chunk size is `HEXDIG+` with a value below 2^62 ≤ MaxInt. -/
+theorem c08_chunk_size (s : Bytes) (n : Nat) (h : parseHexSize s = some n) :
+    s ≠ [] ∧ s.all isHex = true ∧ n < 2 ^ 62 := chunk_accepted s n h
+
+/-- C08: a repeated or unsupported Transfer-Encoding is an error. -/
+theorem c08_transfer_encoding (p p' : P) (h : endOfHeaders p = .ok p') (hte : p.te ≠ []) :
+    ∃ v, p.te = [v] ∧ (trim v).map toLower = str "chunked" ∧ p'.chunked = true := te_accepted p p' h hte
+
+/-- C08: announcing a framing field as a trailer is an error. -/
+theorem c08_trailer_names (p p' : P) (h : addTrailerKeys p = .ok p') (hc : p.chunked = true) (htr : p.tr ≠ []) :
+    (declaredKeys p.tr).any forbiddenTrailer = false := trailer_accepted p p' h hc htr
+
+/-- C08: every `…LF` state rejects any byte other than LF. -/
+theorem c08_missing_lf (g : Cfg) (p : P) (tok : Bytes) (c : UInt8) (hs : p.st ∈ lfStates) (hc : c ≠ LF) :
+    byteStep g p tok c = .err E.lfExpected.code [] := lf_expected g p tok c hs hc
+
+/-- C08: every `…CR` state rejects any byte other than CR. -/
+theorem c08_missing_cr (g : Cfg) (p : P) (tok : Bytes) (c : UInt8) (hs : p.st ∈ crStates) (hc : c ≠ CR) :
+    byteStep g p tok c = .err E.crExpected.code [] := cr_expected g p tok c hs hc
+
+/-- C08: a bare LF in the header section is an error. -/
+theorem c08_bare_lf_in_header (g : Cfg) (p : P) (tok : Bytes)
+    (hs : p.st = .headerKeyBefore ∨ p.st = .headerKey ∨ p.st = .headerValueBefore ∨ p.st = .headerValue) :
+    byteStep g p tok LF = .err E.invalidCharInHeader.code [] := bare_lf_in_header g p tok hs
+
+/-- C08: nothing further after an error, for the engine glue "close the parser on error" (`CloseAndClean` sets
+    `stateClose`): a closed parser returns `net.ErrClosed` on every non-empty input without emitting any event. -/
+theorem c08_silent_after_close (g : Cfg) (p : P) (cache data : Bytes) (hs : p.st = .close) (hd : data ≠ [])
+    (hc : cache = []) :
+    implParse (machine g) p cache data [] = ⟨[], .inr E.closed.code⟩ := by
+  subst hc
+  cases data with
+  | nil => exact absurd rfl hd
+  | cons d ds =>
+    simp only [implParse, reduceCtorEq, if_false, List.nil_append, List.length_cons, List.length_nil]
+    unfold loop
+    simp [machine, block, hs, byteStep, er]
+
 def g0 : Cfg := { isClient := false, maxBody := 0, urlOk := fun _ => true, protoOk := fun _ => true }
 
 /-- cache length of a successful result (0 for an error) -/
@@ -101,5 +170,16 @@ def cacheLen (r : Res P Ev) : Nat := match r.fin with | .inl (_, c) => c.length 
 
 /-- non-vacuity: a reachable state with a non-empty cache under a limit -/
 example : cacheLen (parseL (machine g0) 8 (init g0) [] [71, 69, 84, 32, 47, 97] []) = 2 := by decide
+
+/-- non-vacuity of the framing theorems: accepted and rejected values -/
+example : parseCLValue (str "+12") = some 12 ∧ parseCLValue (str "-1") = some (-1) ∧ parseCLValue (str "1x") = none ∧
+    parseCLValue [] = none ∧ parseHexSize (str "1f") = some 31 ∧ parseHexSize (str "g") = none ∧
+    parseHexSize (str "4000000000000000") = none := by decide
+example : ∃ e, endOfHeaders { st := .headerKeyBefore, te := [str "chunked", str "chunked"] } = .error e := ⟨_, rfl⟩
+example : (endOfHeaders { st := .headerKeyBefore, te := [[]] }).isOk = false := by decide
+example : (endOfHeaders { st := .headerKeyBefore, cl := [str "-5"] }).isOk = false := by decide
+example : (endOfHeaders { st := .headerKeyBefore, cl := [[]] }).isOk = false := by decide
+example : (endOfHeaders { st := .headerKeyBefore, cl := [str "3", str "4"] }).isOk = false := by decide
+example : (endOfHeaders { st := .headerKeyBefore, cl := [str "3 ", str "3"] }).isOk = true := by decide
 
 end Http
